@@ -61,7 +61,26 @@ func init() {
 			if tier == "enum-base" {
 				o = genOpts{duration: []int{300}, healAlways: true}
 			}
-			return genPlan(t, o)
+			p := genPlan(t, o)
+			if tier != "enum-base" && len(p.Ops) > 0 && rapid.IntRange(0, 3).Draw(t, "claimoutage") == 0 {
+				// the taker's claim broadcast keeps failing for a long time after it paid
+				// (every timer armed earlier in the swap fires meanwhile)
+				op := p.Ops[0]
+				taker := op.Node
+				if op.Kind == "swapin" {
+					taker = 1 - op.Node
+				}
+				site := "btcwallet.spend"
+				if op.Chain == "lbtc" {
+					site = "lwallet.sendraw"
+				}
+				p.Faults = append(p.Faults, world.Fault{Node: taker, Site: site, Kind: "err", ToMs: pick(t, "outage", []int{400_000, 700_000, 900_000})})
+				if p.Scn.DurationSec < 1500 {
+					p.Scn.DurationSec = 1500
+				}
+				p.Heal.On = true
+			}
+			return p
 		},
 		Monitors:   world.MonitorsFor("C06"),
 		Nontrivial: func(r *world.Result) bool { return probe(r, "C06:") },
@@ -104,7 +123,12 @@ func init() {
 	register(&PropDef{
 		ID: "C16",
 		Gen: func(t *rapid.T, tier string) *world.Plan {
-			return genPlan(t, genOpts{maxCrashes: 2, maxFaults: 2, maxNet: 3, maxLN: 1, sched: true, healAlways: true, silence: true, duration: []int{120, 300, 900}})
+			p := genPlan(t, genOpts{maxCrashes: 2, maxFaults: 2, maxNet: 3, maxLN: 1, sched: true, healAlways: true, silence: true, duration: []int{120, 300, 900}})
+			if p.Heal.Restarts == 0 {
+				// the statement's premise: "the node is restarted from time to time"
+				p.Heal.Restarts = 1
+			}
+			return p
 		},
 		Monitors: world.MonitorsFor("C16"),
 		Nontrivial: func(r *world.Result) bool {
@@ -114,10 +138,11 @@ func init() {
 	register(&PropDef{
 		ID: "C17",
 		Gen: func(t *rapid.T, tier string) *world.Plan {
-			p := genPlan(t, genOpts{maxCrashes: 2, maxNet: 2, sched: true, silence: true, silenceAlways: true, duration: []int{900, 1500}, restartMs: []int{500, 5000, 60000},
-				maxLN: 1})
-			// bias: the responder's fee invoice is not paid (initiator's payment fails / it crashes)
-			return p
+			if rapid.IntRange(0, 3).Draw(t, "generic") == 0 {
+				return genPlan(t, genOpts{maxCrashes: 2, maxNet: 2, sched: true, silence: true, silenceAlways: true, duration: []int{900, 1500}, restartMs: []int{500, 5000, 60000},
+					maxLN: 1})
+			}
+			return genC17(t)
 		},
 		Monitors:   world.MonitorsFor("C17"),
 		Nontrivial: func(r *world.Result) bool { return probe(r, "C17:") },
